@@ -267,11 +267,13 @@ def check(ctx):
     check_threads(ctx, thorough)
 
 
-def replay_all(ctx, thorough, vacuity=True):
+def replay_all(ctx, thorough, vacuity=True, only=None):
     """(2) tours and (3) simulation of ProcIter.tla into the real code; also
     used by the C02 check (is_running() truth under process_iter() traffic)."""
     ops = set()
     for name, rd, pc in warm(ctx):
+        if only is not None and name not in only:
+            continue
         g = graph.from_dump(rd)
         jobs = replay.tour_jobs(ctx, g, None if thorough else pc, edge_class, maxlen=50)
         ctx.cov.setdefault('graphs', {})[name] = {'states': len(g.states), 'transitions': len(g.edges)}
@@ -281,6 +283,8 @@ def replay_all(ctx, thorough, vacuity=True):
             "is_running:False", "pid_exists:True", "pid_exists:False", "pids:.."}
     if vacuity and need - ops:
         raise core.Machinery("vacuity: never replayed: %s" % sorted(need - ops))
+    if only is not None:
+        return
     # (3) deep random behaviours: 3 PIDs, 2 iterators
     cs = consts(pids=(1, 2, 3), iters=(1, 2), maxobj=9, maxinc=7, maxup=4, tids=(5, 6), probe=(0, 7, 97, 98, 99))
     beh = replay.sim_behaviours(ctx, "ProcIter", "simulate-3pid-2iter", cs, 3000 if thorough else 500, 50)
